@@ -8,6 +8,14 @@ Driver ops for the printing model (`S4V.Model.Print`).
       ev    = `<pid>;<kind s|f|e|j>;<color 0|1>;<file_hex|n>;<date_hex|n>;<isLast 0|1>;<dt int>;<beg>;<end>;<payload>`
               payload = the message's lines as comma-separated hex (text logs) or one hex (other kinds)
       → `<stdout hex> T <bytes> <lines> <syslines> <fixedstruct> <evtx> <journal> <dtFirst|n> <dtLast|n> F <pid>:<bytes>:<lines>:<msgs> …`
+  prt sys <bs> <file_hex> <color 0|1> <file_field_hex|n> <dfmt> <r,g,b> @ <pal> <msg> …
+      everything before `@` is for the harness (it rebuilds the messages from the file); the model reads
+      the colour flag and the file-name field from there, and after `@`:
+      pal = `<dflt_hex>,<txt_hex>,<dt_hex>`
+      msg = `<date_field_hex|n>;<dt_beg>;<dt_end>;<line>/<line>/…`, line = `<part_hex>,<part_hex>,…`
+      one fresh printer prints the messages in order
+      → per message `<stdout hex> <printed> <flushed> <label:hex,…>` joined by ` | `
+        (label of a run of bytes = the colour in force: N none yet, D default, T text, U datetime)
 -/
 import S4V.Model.Wire
 import S4V.Model.Print
@@ -51,7 +59,56 @@ def optIntStr : Option Int → String
 
 def msgsOf (s : SumPr) : Nat := s.syslines + s.fixedstructentries + s.evtxentries + s.journalentries
 
+
+/-! ### `prt sys`: real `Sysline`s (lineparts) through the buffer model -/
+
+def parseParts (s : String) : Option (List Bytes) :=
+  if s = "" then some [] else (s.splitOn ",").mapM unhex
+
+def parseSysP (s : String) : Option (Option Bytes × SysMsgP) :=
+  match s.splitOn ";" with
+  | [date, b, e, ls] =>
+    match optHex date, b.toNat?, e.toNat?, (if ls = "" then some [] else (ls.splitOn "/").mapM parseParts) with
+    | some date, some b, some e, some ls => some (date, ⟨ls, b, e⟩)
+    | _, _, _, _ => none
+  | _ => none
+
+def labelOf (p : Pal) : Last → String
+  | none => "N"
+  | some b => if b = p.dt then "U" else if b = p.txt then "T" else if b = p.dflt then "D" else "X"
+
+/-- runs of bytes with the colour in force, adjacent runs of one colour merged, empty runs dropped -/
+def labelled (p : Pal) : Last → List Chunk → List (String × Bytes) → List (String × Bytes)
+  | _, [], acc => acc.reverse
+  | _, .esc b :: r, acc => labelled p (some b) r acc
+  | l, c :: r, acc =>
+    let bs := c.bytes
+    if bs = [] then labelled p l r acc
+    else
+      match acc with
+      | (lab, x) :: t => if lab = labelOf p l then labelled p l r ((lab, x ++ bs) :: t) else labelled p l r ((labelOf p l, bs) :: acc)
+      | [] => labelled p l r [(labelOf p l, bs)]
+
+def sysRun (p : Pal) (color : Bool) (file : Option Bytes) : Last → List (Option Bytes × SysMsgP) → List String
+  | _, [] => []
+  | last, (date, m) :: r =>
+    let res := printM (Env.code p) Flags.code ⟨color, file, date⟩ (.sysline m) (Dev.fresh last)
+    let chunks := (labelled p last res.1.out []).map fun (l, b) => s!"{l}:{hex b}"
+    s!"{hex (bytesOf res.1.out)} {res.2.1} {res.2.2} {if chunks = [] then "-" else String.intercalate "," chunks}" ::
+      sysRun p color file res.1.last r
+
+def stepSys (ws : List String) : String :=
+  let pre := ws.takeWhile (· ≠ "@")
+  let post := (ws.dropWhile (· ≠ "@")).drop 1
+  match pre, post with
+  | [_bs, _file, color, ff, _dfmt, _rgb], pal :: msgs =>
+    match optHex ff, parsePal pal, msgs.mapM parseSysP with
+    | some ff, some pal, some msgs => String.intercalate " | " (sysRun pal (color = "1") ff none msgs)
+    | _, _, _ => "bad-op"
+  | _, _ => "bad-op"
+
 def stepPrint : List String → String
+  | "sys" :: rest => stepSys rest
   | ["pfx", name, nchars, width, psep] =>
     match unhex name, nchars.toNat?, width.toNat?, unhex psep with
     | some name, some nchars, some width, some psep => hex (fileField name nchars width psep)
